@@ -8,6 +8,7 @@
 
 mod core;
 mod faultio;
+mod fx;
 mod inputs;
 mod model;
 mod prng;
@@ -216,7 +217,9 @@ fn check(property: &str, tier: &str) {
             match core::catch(|| sim.run_one(seed, r)) {
                 core::Caught::Ok(out) => out,
                 core::Caught::Panic(m, l) => {
-                    if l.starts_with("sim/src") || l.starts_with("simsrc/") || l.contains("/sim/src/") {
+                    // the simulator's own sources (its crate is compiled with relative paths)
+                    let own = ["src/sims/", "src/model/", "src/core.rs", "src/main.rs", "src/faultio.rs", "src/inputs.rs", "src/prng.rs", "src/report.rs", "src/fx.rs"];
+                    if own.iter().any(|o| l.starts_with(o)) || l.starts_with("sim/src") || l.starts_with("simsrc/") || l.contains("/sim/src/") {
                         println!("HARNESS-ERROR: the simulator itself panicked in run {r}: {m} @ {l}");
                         std::process::exit(2);
                     }
